@@ -55,7 +55,7 @@ IdH  == {"user", "email", "groups", "token"}
 IdH3 == {"user", "email", "groups"}
 Lay  == {"absent", "one", "two", "empty", "odd"}      \* what the client sends under one header name
 Modes == {"auth", "skip", "preflight"}
-Injects == {"none", "unrelated", "user", "email", "groups"}
+Injects == {"none", "unrelated", "user", "email", "groups", "cov"}   \* "cov": inject_request_headers sets a signature-covered header (Authorization)
 CkLayouts == {"none", "only", "first", "middle", "last", "dup", "dupbad", "twolines", "malformed", "quoted"}
 CovLay == {"absent", "single", "multi", "empty", "odd"}
 Meths == {"get", "head", "options", "delete", "post", "put"}      \* put: PUT or PATCH
@@ -129,7 +129,9 @@ StAuth(q, s) ==
    IF s.white THEN s
    ELSE IF SessionLoads(s.cks) THEN [s EXCEPT !.authed = TRUE] ELSE [s EXCEPT !.alive = FALSE]
 StInject(q, s) ==
-   IF s.authed /\ q.inject \in IdH3 THEN [s EXCEPT !.hdr[q.inject] = <<"I">>] ELSE s
+   IF s.authed /\ q.inject \in IdH3 THEN [s EXCEPT !.hdr[q.inject] = <<"I">>]
+   ELSE IF s.authed /\ q.inject = "cov" THEN [s EXCEPT !.cov = <<"J">>]      \* Header.Set replaces whatever the client sent
+   ELSE s
 StSetId(q, s) ==
    IF ~s.authed THEN s
    ELSE [s EXCEPT !.hdr = [h \in IdH |->
@@ -284,10 +286,19 @@ CellsHop(mode) ==
         idh \in {Absent, AllLay("one")}, ck \in {"only", "middle"}, cn \in Conns \ {"none"},
         mb \in {<<"get", "none", "sized">>, <<"post", "small", "sized">>, <<"put", "small", "chunked">>} }
 
+\* inject_request_headers sets a covered header (the documented use: Authorization for basic auth): the signatures
+\* must cover the injected value, on every method / body framing, with and without a client value of its own
+CellsInj(mode) ==
+   { Cell("inj", mode, FullSess, idh, ck, pass, "cov", cov, meth, tgt, bf[1], bf[2], signer, hmac) :
+        idh \in {Absent, AllLay("one")}, ck \in {"only", "middle"}, pass \in {TRUE}, cov \in {"absent", "single", "multi"},
+        meth \in {"get", "post", "put"}, tgt \in {"plain", "query"},
+        bf \in {<<"none", "sized">>, <<"small", "sized">>, <<"small", "chunked">>}, signer \in BOOLEAN, hmac \in BOOLEAN }
+
 IsCell(c) == \/ "id" \in Families /\ \E mode \in Modes : c \in CellsId(mode)
              \/ "sig" \in Families /\ \E mode \in {"auth", "skip"} : c \in CellsSig(mode)
              \/ "mini" \in Families /\ \E mode \in Modes : c \in CellsMini(mode)
              \/ "hop" \in Families /\ \E mode \in {"auth", "skip"} : c \in CellsHop(mode)
+             \/ "inj" \in Families /\ \E mode \in {"auth", "skip"} : c \in CellsInj(mode)
 
 -----------------------------------------------------------------------------
 (* The model: one request travelling through the stages *)
